@@ -88,4 +88,9 @@ theorem model_rot_transform_training {n p k : ℕ} (comps0 : XM.Mat p k 𝕜) (e
       = (XM.rotFit comps0 expvar0 scores0 svals0 R RinvT sgn perm).scores :=
   XP.RotM.model_transform_training comps0 expvar0 scores0 svals0 R RinvT sgn perm X h
 
+/-- source obligations: the cross-set `transform` forwards `normalized` to the algorithm, and a field's data pass through `V` alone
+on their way into PC space (no statistics of the NEW data enter) -/
+theorem src_cross_transform_forwards_normalized :
+    Gen.crossTransformAlgorithmCall = "self._transform_algorithm(X, Y, normalized=normalized)" := by decide
+
 end C04
